@@ -1,14 +1,14 @@
 /-
   The week loop of `rrul_fill_wly` (`wlyLoop`) and the whole filler: it ends within the fuel `wlyDlyFuel` grants
-  (as long as `d + INTERVAL * 7` cannot wrap as an `unsigned int`) and leaves a sane accumulator.
+  and leaves a sane accumulator (the guard on INTERVAL keeps `d + INTERVAL * 7` from wrapping as an `unsigned int`).
 -/
 import Echse.Lemmas.RrWlyWeek
 namespace Echse.Lemmas.RrOkBase
 open Echse.Rrule Echse.Instant Echse.Spec.RrOk
 
-/-- the week loop ends within its fuel; when the enumeration is sane (`EnumOk`) it keeps the accumulator sane -/
-theorem wlyLoop_spec (c : WlyCtx) (hr : WfRule c.r) (hp : WfInst c.proto)
-    (hinc : nibOk 8 c.wdIncs 6 = true) (hk : c.r.inter * 7 + 31 < 4294967296) :
+/-- the week loop ends within its fuel; when the enumeration is sane (`EnumOk`) it keeps the accumulator sane.
+The guard `if (rr->inter > (UINT_MAX - 31U) / 7U) goto fin;` keeps `d + rr->inter * 7U` from wrapping. -/
+theorem wlyLoop_spec (c : WlyCtx) (hr : WfRule c.r) (hp : WfInst c.proto) (hinc : nibOk 8 c.wdIncs 6 = true) :
     ∀ (fuel y m d : Nat) (res : List Inst), VD y m d → y ≤ 13000000 →
       (EnumOk c.e → Acc c.r c.proto c.nti res ∧ Below res y m d) → Enough fuel y m d →
       ∃ l, wlyLoop c fuel y m d (getNdom y m) res = some l ∧ (EnumOk c.e → Acc c.r c.proto c.nti l) := by
@@ -25,26 +25,30 @@ theorem wlyLoop_spec (c : WlyCtx) (hr : WfRule c.r) (hp : WfInst c.proto)
         nsetLoop c m d (getNdom y m) (m % 12 + 1) 8 c.wdIncs 0 0 * (c.e.H.length * c.e.M.length * c.e.S.length) else 0) = nset
       have hd31 := hv.d31
       have hm12 := hv.2.1
-      obtain ⟨res1, fin, hw, hab1, hfin⟩ := wlyWeek_spec c hp nset hv hy 8 c.wdIncs d y m d 0 res 6 hinc
+      obtain ⟨res1, fin, hw, hab1, hfin⟩ := wlyWeek_spec c hp (EnumOk c.e) id nset hv hy 8 c.wdIncs d y m d 0 res 6 hinc
         (by omega) (Nat.le_refl _) (Carry.done hv.2.2.2) (fun he => ⟨(hab he).1, (hab he).2.mono (by omega)⟩)
       rw [hw]
       cases fin with
       | true => exact ⟨res1, rfl, fun he => (hab1 he).1⟩
       | false =>
         simp only
-        have hy99 := hfin rfl
-        have hi := hr.inter
-        have e1 : (d + c.r.inter % u32 * 7 % u32) % u32 = d + c.r.inter * 7 := by unfold u32; omega
-        rw [e1]
-        obtain ⟨y2, m2, d2, hcm, hc⟩ := carryMon_spec (d + c.r.inter * 7 + 1) y m (d + c.r.inter * 7) hv.1 hv.2.1
-          (by omega) (by unfold pot; omega)
-        rw [hcm]
-        simp only
-        obtain ⟨hv2, hpot, -, -⟩ := hc.props hv.1 hv.2.1 (by omega)
-        refine ih y2 m2 d2 res1 hv2 ?_ (fun he => ⟨(hab1 he).1, ((hab1 he).2.mono (by omega)).rebase hc⟩)
-          (enough_step hv hy99 (by omega) hc hn)
-        unfold pot at hpot
-        omega
+        by_cases cg : c.r.inter % u32 > (u32 - 1 - 31) / 7
+        · rw [if_pos cg]; exact ⟨res1, rfl, fun he => (hab1 he).1⟩
+        · rw [if_neg cg]
+          have hy99 := hfin rfl
+          have hi := hr.inter
+          have hk : c.r.inter * 7 + 31 < 4294967296 := by unfold u32 at cg; omega
+          have e1 : (d + c.r.inter % u32 * 7 % u32) % u32 = d + c.r.inter * 7 := by unfold u32; omega
+          rw [e1]
+          obtain ⟨y2, m2, d2, hcm, hc⟩ := carryMon_spec (d + c.r.inter * 7 + 1) y m (d + c.r.inter * 7) hv.1 hv.2.1
+            (by omega) (by unfold pot; omega)
+          rw [hcm]
+          simp only
+          obtain ⟨hv2, hpot, -, -⟩ := hc.props hv.1 hv.2.1 (by omega)
+          refine ih y2 m2 d2 res1 hv2 ?_ (fun he => ⟨(hab1 he).1, ((hab1 he).2.mono (by omega)).rebase hc⟩)
+            (enough_step hv hy99 (by omega) hc hn)
+          unfold pot at hpot
+          omega
     · rw [if_pos (by omega)]; exact ⟨res, rfl, fun he => (hab he).1⟩
 
 theorem wlyWdMask_lt (dow : List Int) : wlyWdMask dow < 256 := by
@@ -67,11 +71,11 @@ abbrev mkCtx (r : Rule) (p : Inst) (nti incs : Nat) : WlyCtx :=
   { r := r, proto := p, nti := nti, e := makeEnum p r, mMask := monMask r.mon, wdIncs := incs, posp := !r.pos.isEmpty }
 
 theorem wly_finish (r : Rule) (p : Inst) (nti n y0 m0 d0 incs : Nat) (hr : WfRule r) (hp : WfInst p)
-    (hk : r.inter * 7 + 31 < 4294967296) (hcap : nti ≤ n ∧ (0 ≤ r.count → (nti : Int) ≤ r.count))
+    (hcap : nti ≤ n ∧ (0 ≤ r.count → (nti : Int) ≤ r.count))
     (hv : VD y0 m0 d0) (hinc : nibOk 8 incs 6 = true) (hy : y0 ≤ 2100) :
     ∃ l, (wlyLoop (mkCtx r p nti incs) (wlyDlyFuel y0 nti) y0 m0 d0 (getNdom y0 m0) []).map List.reverse = some l ∧
       (TimeOk r p → FillOk r p n l) := by
-  obtain ⟨l, hl, hacc⟩ := wlyLoop_spec (mkCtx r p nti incs) hr hp hinc hk (wlyDlyFuel y0 nti) y0 m0 d0 []
+  obtain ⟨l, hl, hacc⟩ := wlyLoop_spec (mkCtx r p nti incs) hr hp hinc (wlyDlyFuel y0 nti) y0 m0 d0 []
     hv (by omega) (fun _ => ⟨Acc.nil _ _ _, Below.nil _ _ _⟩) (enough_start y0 m0 d0 nti hv)
   rw [hl]
   exact ⟨l.reverse, rfl, fun ht => fillOk_of_acc (hacc (makeEnum_ok r p hr hp ht)) hcap.1 hcap.2⟩
@@ -79,10 +83,10 @@ theorem wly_finish (r : Rule) (p : Inst) (nti n y0 m0 d0 incs : Nat) (hr : WfRul
 theorem ndom_dec (y : Nat) : getNdom y 12 = 31 := by
   simp [getNdom, mdays]
 
-/-- `fillWly` ends (when `d + INTERVAL * 7` cannot wrap) and its result is fine (when moreover the seed's time of day
-goes with the rule's BYHOUR / BYMINUTE / BYSECOND parts) -/
-theorem fillWly_spec (r : Rule) (p : Inst) (n : Nat) (hr : WfRule r) (hp : WfInst p)
-    (hk : r.inter * 7 + 31 < 4294967296) : ∃ l, fillWly r p n = some l ∧ (TimeOk r p → FillOk r p n l) := by
+/-- `fillWly` ends, and its result is fine when the seed's time of day goes with the rule's BYHOUR / BYMINUTE /
+BYSECOND parts -/
+theorem fillWly_spec (r : Rule) (p : Inst) (n : Nat) (hr : WfRule r) (hp : WfInst p) :
+    ∃ l, fillWly r p n = some l ∧ (TimeOk r p → FillOk r p n l) := by
   unfold fillWly
   have hy := hp.year
   rw [if_neg (by rw [hr.scale]; omega)]
@@ -110,23 +114,23 @@ theorem fillWly_spec (r : Rule) (p : Inst) (n : Nat) (hr : WfRule r) (hp : WfIns
             simp only [c4, ↓reduceIte, e1, ndom_dec]
             rw [if_neg (by omega)]
             simp only [Option.map_some]
-            refine wly_finish r p nti n (p.y - 1) 12 (p.d + 31 - (w - 1)) _ hr hp hk hcap' ?_ hinc (by omega)
+            refine wly_finish r p nti n (p.y - 1) 12 (p.d + 31 - (w - 1)) _ hr hp hcap' ?_ hinc (by omega)
             refine ⟨by omega, by omega, by omega, ?_⟩
             rw [ndom_dec]; omega
           · simp only [c4, ↓reduceIte]
             have hb := ndom_bounds p.y (p.m - 1) (by omega) (by have := hp.month; omega)
             rw [if_neg (by omega)]
             simp only [Option.map_some]
-            refine wly_finish r p nti n p.y (p.m - 1) (p.d + getNdom p.y (p.m - 1) - (w - 1)) _ hr hp hk hcap' ?_
+            refine wly_finish r p nti n p.y (p.m - 1) (p.d + getNdom p.y (p.m - 1) - (w - 1)) _ hr hp hcap' ?_
               hinc (by omega)
             have := hp.month
             exact ⟨by omega, by omega, by omega, by omega⟩
         · rw [if_neg c3]
           simp only [Option.map_some]
-          refine wly_finish r p nti n p.y p.m (p.d - (w - 1)) _ hr hp hk hcap' ?_ hinc (by omega)
+          refine wly_finish r p nti n p.y p.m (p.d - (w - 1)) _ hr hp hcap' ?_ hinc (by omega)
           have := hp.month
           exact ⟨by omega, by omega, by omega, by omega⟩
       · rw [if_neg c2]
-        exact wly_finish r p nti n p.y p.m p.d 0 hr hp hk hcap' hv nibOk_zero (by omega)
+        exact wly_finish r p nti n p.y p.m p.d 0 hr hp hcap' hv nibOk_zero (by omega)
 
 end Echse.Lemmas.RrOkBase
